@@ -107,7 +107,7 @@ def _mk_ansi(n, tiers, timeout):
     return h
 
 
-for _n, _t, _to in [(3, ("quick", "thorough"), 300), (4, ("quick", "thorough"), 900), (5, ("thorough",), 3400)]:
+for _n, _t, _to in [(3, ("quick", "thorough"), 300), (4, ("quick", "thorough"), 900), (5, ("quick", "thorough"), 2400)]:
     _mk_ansi(_n, _t, _to)
 
 
